@@ -4,7 +4,7 @@ from . import base
 
 THEOREMS = ['C03_constants', 'C03_binary', 'C03_winner', 'C03_metadata', 'C03_container_priority_applies_below', 'C03_priorities_refine',
             'C03_every_leaf_path_latest_of_highest', 'C03_merge_is_prioritised_update', 'C03_prediction_sound', 'C03_document_prediction_sound', 'C03_update_is_pointwise', 'C03_evaluated_config', 'C03_no_lists_no_side_condition', 'C03_side_condition_document_by_document',
-            'C03_metadata_refines', 'C03_metadata_keys_at_every_meeting', 'C03_metadata_forgets_to_priorities', 'C03_metadata_prediction_sound']
+            'C03_metadata_refines', 'C03_metadata_keys_at_every_meeting', 'C03_metadata_forgets_to_priorities', 'C03_metadata_prediction_sound', 'C03_leaf_meeting_decided_anywhere']
 
 
 def in_domain(docs):
